@@ -190,6 +190,22 @@ func main(a, b [2]byte) ([]byte, uint8, bool) {
 	s := hex.EncodeToString(a[:])
 	return []byte(s), uint8(aes.BlockSize) + b[0], bytes.Equal(a[:], b[:])
 }
+`},
+		// multiplications in several width classes of the per-width algorithm selection (16..21 and
+		// 37..41 bits have thresholds of their own): whatever one compilation resolves must not be
+		// what the next one, on the same Params value, starts from
+		stream.Program{Name: "crafted/multiplications of 16 and 40 bits", Src: `package main
+
+func main(a, b uint64) (uint16, uint40) {
+	return uint16(a) * uint16(b), uint40(a) * uint40(b)
+}
+`},
+		stream.Program{Name: "crafted/multiplications of 32, 20 and 64 bits", Src: `package main
+
+func main(a, b uint64) (uint32, uint20, uint64) {
+	x := uint32(a) * uint32(b)
+	return x, uint20(a) * uint20(b >> 3), a * b
+}
 `})
 }
 
@@ -671,6 +687,14 @@ func (w *world) Run(t *rt.Tape, trace bool) *core.Result {
 				}
 				if t.Choose(rt.SGen, 4) == 0 {
 					j.History = append(j.History, failing[t.Choose(rt.SGen, len(failing))])
+					continue
+				}
+				if t.Choose(rt.SGen, 4) == 0 {
+					// a generated program: arithmetic of arbitrary widths, structs, arrays, loops
+					if src, _ := gen.MPCL(t); len(src) < 3000 {
+						j.History = append(j.History, src)
+						res.Reach["job.history-with-a-generated-program"]++
+					}
 					continue
 				}
 				if t.Choose(rt.SGen, 2) == 0 {
